@@ -81,6 +81,9 @@ func (r *Registry) Add(soyfile *ast.SoyFileNode) error {
 		}
 		tn.Body.Nodes = tn.Body.Nodes[len(headerParams):]
 
+		if _, ok := r.sourceByTemplateName[tn.Name]; ok {
+			return fmt.Errorf("template %v is defined more than once", tn.Name)
+		}
 		r.Templates = append(r.Templates, Template{sdn, tn, ns})
 		r.sourceByTemplateName[tn.Name] = soyfile.Text
 		r.fileByTemplateName[tn.Name] = soyfile.Name
